@@ -32,16 +32,29 @@ Fixpoint value_raws (v : value) : list string :=
   | VObj l => (fix go (l : list (string * value)) := match l with [] => [] | (_, x) :: t => value_raws x ++ go t end) l
   end.
 
-(* getVariablesList over common.SelectionSetToFields(s, nil): inline fragments are flattened (their fields are
-   treated like fields of the enclosing selection set), directives are ignored *)
+(* getDirectivesVariablesList: the directive arguments that are variables (values of other kinds are not looked into) *)
+Definition dir_top_vars (ds : list directive) : list string :=
+  flat_map (fun d => flat_map (fun a => match snd a with VVar n => [n] | _ => [] end) (snd d)) ds.
+(* common.SelectionSetToFragmentDirectives: the directives of the inline fragments of a level, nested fragments included *)
+Fixpoint frag_dirs (s : sel) : list directive :=
+  match s with
+  | SField _ _ _ _ _ => []
+  | SInline _ ds sub => ds ++ (fix go (l : list sel) := match l with [] => [] | x :: t => frag_dirs x ++ go t end) sub
+  end.
+
+(* getVariablesList (since fix 0156dcf): the variables of the directives of the level's fragments, then over
+   common.SelectionSetToFields(s, nil) — inline fragments flattened — for each field the variables of its directives,
+   the Raws of its arguments, and the same for its selection *)
 Fixpoint sel_variables (s : sel) : list string :=
   match s with
-  | SField _ _ args _ sub =>
+  | SField _ _ args ds sub =>
+      dir_top_vars ds ++
       flat_map (fun a => value_raws (snd a)) args ++
+      dir_top_vars (flat_map frag_dirs sub) ++
       (fix go (l : list sel) := match l with [] => [] | x :: t => sel_variables x ++ go t end) sub
   | SInline _ _ sub => (fix go (l : list sel) := match l with [] => [] | x :: t => sel_variables x ++ go t end) sub
   end.
-Definition variables_list (ss : list sel) : list string := flat_map sel_variables ss.
+Definition variables_list (ss : list sel) : list string := dir_top_vars (flat_map frag_dirs ss) ++ flat_map sel_variables ss.
 
 (* executor getVariables: of the listed names, those the client request carries a value for *)
 Definition forwarded (client_vars : list (string * json)) (listed : list string) : list (string * json) :=
@@ -79,3 +92,11 @@ Fixpoint sel_directive_vars (s : sel) : list string :=
   | SInline _ ds sub => dirs_vars ds ++ (fix go (l : list sel) := match l with [] => [] | x :: t => sel_directive_vars x ++ go t end) sub
   end.
 Definition directive_vars (ss : list sel) : list string := flat_map sel_directive_vars ss.
+
+(* the variables that are themselves the value of a directive argument, of fields and of fragments, at any depth *)
+Fixpoint sel_directive_top_vars (s : sel) : list string :=
+  match s with
+  | SField _ _ _ ds sub => dir_top_vars ds ++ (fix go (l : list sel) := match l with [] => [] | x :: t => sel_directive_top_vars x ++ go t end) sub
+  | SInline _ ds sub => dir_top_vars ds ++ (fix go (l : list sel) := match l with [] => [] | x :: t => sel_directive_top_vars x ++ go t end) sub
+  end.
+Definition directive_top_vars (ss : list sel) : list string := flat_map sel_directive_top_vars ss.
